@@ -80,6 +80,12 @@ func (k *c19) Finish(c *core.Ctx) {
 }
 
 func (k *c19) RunCase(c *core.Ctx, i int) {
+	if c.Counter("confirmed_hangs") >= 6 && i < k.nRace+k.nFault+k.nTrace {
+		// the verdict is already "violated"; every further hang costs minutes of watchdog time
+		c.NotJudged(1)
+		c.Count("cases_skipped_after_repeated_hangs", 1)
+		return
+	}
 	switch {
 	case i < k.nRace:
 		k.raceCase(c, i)
@@ -389,7 +395,7 @@ func (k *c19) faultCase(c *core.Ctx, i int) {
 			logPrefix = filepath.Join(dir, "race-"+cmd.key)
 			env = append(env, "GORACE=halt_on_error=0 exitcode=0 log_path="+logPrefix)
 		}
-		ex := core.Cmd{Argv: append([]string{bin}, cmd.args...), Dir: dir, Env: env, Timeout: 60 * time.Second, Fsize: -1}
+		ex := core.Cmd{Argv: append([]string{bin}, cmd.args...), Dir: dir, Env: env, Timeout: 30 * time.Second, Fsize: -1}
 		res := core.Exec(ex)
 		c.Eval(1)
 		fail := func(key, why string) {
@@ -408,8 +414,9 @@ func (k *c19) faultCase(c *core.Ctx, i int) {
 				c.Inconclusive(i, "watchdog fired once on "+cmd.key)
 				continue
 			}
-			fail("hang", "the command hangs after a stage failed (3 of 3 attempts exceeded 60 s)")
-			continue
+			c.Count("confirmed_hangs", 1)
+			fail("hang", "the command hangs after a stage failed (3 of 3 attempts exceeded 30 s)")
+			return // the other commands of this case load the same journal
 		}
 		if logPrefix != "" {
 			if blocks, log := readRaceLogs(logPrefix); blocks > 0 {
@@ -590,6 +597,7 @@ func (k *c19) traceCase(c *core.Ctx, i int) {
 				c.Inconclusive(i, "trace run timed out once")
 				continue
 			}
+			c.Count("confirmed_hangs", 1)
 			fail("hang:"+args[0], fmt.Sprintf("the command does not terminate on an accepted journal spread over %d files (3 of 3 attempts exceeded 40 s); goroutine dump in stderr.txt", len(w.files)), map[string]string{"stderr.txt": core.Trunc(string(res.Stderr), 60000)})
 			return
 		}
